@@ -140,6 +140,8 @@ def run(ctx) -> Result:
     res.rule("A3", "refusal on incomplete data iff predicate False; never on complete data; no other refusals", 6)
     res.rule("A4", "delegation to starters / auxiliary / back-end", 3)
     res.rule("A5", "equivalence reads both vectors (shared with C19/G3)", 4)
+    res.rule("A7", "a scheme that is accepted is computed: well-formed consensus, no failure, for every configuration on "
+                   "complete and incomplete datasets (shared with C03/W2)", 20)
     _check_conformance(res, proj, ctx.cg)
 
     pool = scheme_pool()
@@ -200,6 +202,9 @@ def run(ctx) -> Result:
                   bad_detail=f"{v[0]} on scheme {v[1]} answers {v[2]}, its delegates imply {v[3]}" if v else "")
     from . import C19
     C19.check_equivalence(res, proj, False, "A5")
+    from . import C03
+    C03.check_wellformed(res, proj, "A7", False, only=("strings-incomplete", "two-cyclic-components",
+                                                       "incomplete-with-full-ranking", "with-empty-ranking", "cycle"))
     _check_no_other_refusal(res, proj, ctx.cg)
     # A6: "computes a consensus" needs the local search to stop: shared obligations of C08 (sweep protocol, strictly
     # negative acceptance thresholds - with a threshold of 0 rounding noise lets a move and its inverse both "improve")
